@@ -33,6 +33,10 @@ def build(spec, with_bbs=False):
             c.add_blackbox(bbs[ti], iname, dict(conns))
     except Exception as e:  # noqa: BLE001
         raise SpecError(f"cannot build spec: {type(e).__name__}: {e}") from e
+    if spec.get("raw_attrs"):
+        for n in c.graph.nodes:
+            if not c.graph.nodes[n].get("output"):
+                c.graph.nodes[n].pop("output", None)
     if with_bbs:
         return c, bbs
     return c
